@@ -54,6 +54,7 @@ type Frame struct {
 	deferred []*ssa.Defer
 	stopAt   map[*ssa.BasicBlock]bool
 	parent   *Frame
+	hintCount map[string]int
 	modLocs  []modLoc
 	dryBack  []*State
 }
